@@ -1,2 +1,9 @@
-import Blackbird
-#print axioms Blackbird.dictGet
+import Blackbird.Props.C06
+#print axioms Blackbird.C06_range_get
+#print axioms Blackbird.C06_range_below
+#print axioms Blackbird.C06_range_empty
+#print axioms Blackbird.C06_range_default_step
+#print axioms Blackbird.C06_loop_eq_unroll
+#print axioms Blackbird.C06_loop_var_not_visible_after
+#print axioms Blackbird.C06_wrong_type_refused
+#print axioms Blackbird.C06_examples_of_wrong_type
